@@ -1,11 +1,11 @@
 """C18 - every invocation ends with exactly one well-formed, correctly classified outcome."""
 from checks import oracles
-from checks.durable_check import replay_execution, run_durable
+from checks.durable_check import fault_enumeration, replay_execution, run_durable
 
 
 def run(ctx):
     from checks.durable_common import CURATED
-    progs = list(CURATED) + [
+    progs = list(CURATED) + ["s23_slow_caught", "s22_slow_steps"] + [
         {"nodes": [{"k": "step"}], "final_raise": True},
         {"nodes": [{"k": "step", "caught": True, "fail": -1, "max": 1}, {"k": "step", "caught": True}, {"k": "step", "caught": True}]},
         {"nodes": [{"k": "child", "caught": True, "body": [{"k": "step"}, {"k": "step"}]}, {"k": "wfc", "polls": 1, "caught": True}]},
@@ -14,6 +14,9 @@ def run(ctx):
                 programs=progs, oracle_fns=[oracles.c18, oracles.c06],
                 scen_kw={"crash": 0.2, "faults": 0.7, "pct": 0.4},
                 n_scen=(6, 16),
+                post=lambda c, ex: fault_enumeration(c, ["s23_slow_caught", "s24_blanket_except", "s22_slow_steps", "s02_amo_retry_caughtfail", "s09_large_final",
+                                                        "s13_child_raises_caught"], [oracles.c18, oracles.c06],
+                                                     latencies=(0.0, 0.05, 0.3)),
                 extra_rule="Oracle: dict with Status and exactly the fields the status allows, JSON Result; a raise only for retriable "
                            "checkpoint errors / invocation errors / malformed payload; the checkpoint thread is not alive at return; "
                            "handlers that catch Exception around durable calls included (a swallowed checkpoint failure must not become SUCCEEDED).")
